@@ -19,7 +19,7 @@ import random
 import numpy as np
 
 from .. import gen, probes
-from ..core import Check, jdigest, result_template
+from ..core import Check, fork_call, jdigest, result_template
 from ..oracles import kepler
 from ..run import cleanup, fmt_ts, parse_ts, wrap_method
 from .common import drive, note_abort, over, time_info, variant
@@ -170,21 +170,33 @@ class C03(Check):
         def upd(name, val, lim):
             tol[name] = [max(tol.get(name, [0.0, lim])[0], val), lim]
 
-        def run_member(cfg, plan):
+        def run_member_here(arg):
+            cfg, plan = arg
             c = {"config": cfg, "plan": plan, "schedule": case.get("schedule"), "job_seed": case.get("job_seed")}
             ctx = drive(c)
             try:
-                aborted = note_abort(ctx, res)
+                tmp = result_template()
+                aborted = note_abort(ctx, tmp)
                 snaps = probes.of_kind("snap")
                 batches = probes.of_kind("batch")
                 bulk = None
+                direct = None
                 if not aborted and ctx.app is not None:
                     bulk = self._bulk(ctx.app, cfg)
                     if cfg is case["config"] and case.get("direct"):
-                        self._direct = self._drive_directly(ctx.app, cfg, case["direct"])
-                return truth_of(snaps), batches, aborted, bulk
+                        direct = self._drive_directly(ctx.app, cfg, case["direct"])
+                return truth_of(snaps), batches, aborted, bulk, direct, dict(tmp["counters"])
             finally:
                 cleanup(ctx)
+
+        def run_member(cfg, plan):
+            # each member is a scenario run of its own: in a fresh fork, so that nothing a run leaves at module or class level reaches the next
+            truth, batches, aborted, bulk, direct, counters = fork_call(run_member_here, (cfg, plan), self.per_run_timeout_s)
+            for kk, vv in counters.items():
+                res["counters"][kk] = res["counters"].get(kk, 0) + vv
+            if direct is not None:
+                self._direct = direct
+            return truth, batches, aborted, bulk
 
         base_cfg = case["config"]
         self._direct = None
